@@ -113,7 +113,8 @@ type Fn struct {
 	Faults []int    `json:"faults,omitempty"` // per execution; beyond the list: ok
 	// EK / PK: what a failing execution fails with. EK 0: a plain sentinel
 	// error, 1: a sentinel error that wraps a dig.Error obtained elsewhere
-	// (as user code that uses a second container would return). PK 0: a
+	// (as user code that uses a second container would return), 2: a typed nil
+	// pointer in the error interface (not nil: still a failure). PK 0: a
 	// non-error sentinel value, 1: an error value, 2: an error value wrapping
 	// a dig missing-type error, 3: an error value wrapping a dig cycle error,
 	// 4: a string, 5: an error value wrapping the error of another container
